@@ -1,5 +1,6 @@
 import Driver.Util
 import Driver.Rid
+import Driver.Cache
 /-!
 # amdrv — the model driver
 
@@ -10,6 +11,7 @@ open Driver
 
 structure Engines where
   rid : Driver.Rid.St := {}
+  cache : Driver.Cache.St := {}
 
 def dispatch (e : Engines) (ws : List String) : Engines × String :=
   match ws with
@@ -17,7 +19,8 @@ def dispatch (e : Engines) (ws : List String) : Engines × String :=
   | w :: _ =>
     if w.startsWith "rid." || w.startsWith "at." then
       let (s, o) := Driver.Rid.step e.rid ws; ({ e with rid := s }, o)
-    else (e, "bad-op")
+    else
+      let (s, o) := Driver.Cache.step e.cache ws; ({ e with cache := s }, o)
 
 partial def loop (h : IO.FS.Stream) (out : IO.FS.Stream) (e : Engines) : IO Unit := do
   let line ← h.getLine
